@@ -149,3 +149,8 @@ package analysis
 //@   loop 4 invariant awf(a)
 //@   loop 4 invariant globalDecls != a.decl && globalDecls != a.extraPredicates && globalDecls != nil
 //@   loop 4 invariant declsOK(globalDecls)
+
+// Analysis entry points are opaque for the interpreter's proofs: they may edit the predicate map they are given.
+//@ func AnalyzeOneUnit(unit, extraPredicates)
+//@   trusted
+//@   modifies extraPredicates
